@@ -36,6 +36,9 @@ class Backend:
         if self.name == 'numpy':
             return npa
         if self.name == 'jax':
+            if npa.ndim == 0 and npa.dtype.kind in 'if' and int(npa.item()) % 2 == 1:
+                # a *weakly typed* jax scalar (built from a Python number): its dtype still takes part in the promotion
+                return self.jnp.asarray(npa.item())
             return self.jnp.asarray(npa)
         if not npa.ndim:
             return self.torch.tensor(npa.item(), dtype=self.tdtype(npa.dtype))
